@@ -139,6 +139,8 @@ func init() {
 			Run: func(P *Program, R *Report) { signerTermsRule(P, R) }},
 		Rule{ID: "C05.e", Explain: "Randomize: A' = A*S^r mod N, V' = V - E*r, E' a copy of E, r = RandomBigInt(LRA) drawn in this call (symbolic terms).",
 			Run: func(P *Program, R *Report) { randomizeRule(P, R) }},
+		Rule{ID: "C05.g", Explain: "valid signatures verify: CLSignature.Verify rejects for the specified reasons only - e outside its interval, e not prime, an error from RepresentToPublicKey or ModPow, a nil component - and otherwise returns the outcome of the equation; any other rejecting branch (e.g. a size limit on v, which randomisation legitimately enlarges) is reported.",
+			Run: func(P *Program, R *Report) { onlySpecifiedRejectionsRule(P, R) }},
 		Rule{ID: "C05.f", Explain: "RepresentToBases hashes oversized messages exactly like the prover and verifier (C01.f).",
 			Run: func(P *Program, R *Report) { oversizedHashRuleAs(P, R, "C05.f") }},
 	)
@@ -362,4 +364,80 @@ func randomizeRule(P *Program, R *Report) {
 		c, idx := callAndResult(a.V)
 		return c != nil && calleeName(c) == "common.RandomBigInt" && idx == 1 && a.Want == Nil
 	}})
+}
+
+// onlySpecifiedRejectionsRule (C05.g): enumerate the branches that lead directly into a `return false` of
+// CLSignature.Verify and classify their conditions.
+func onlySpecifiedRejectionsRule(P *Program, R *Report) {
+	rule := "C05.g"
+	fn := mustFunc(P, R, rule, kCLVerify)
+	if fn == nil {
+		return
+	}
+	be := P.bigEval(fn)
+	sig := "<gabi.CLSignature>"
+	n := 0
+	classify := func(a Atom) (string, bool) {
+		a = normAtom(a)
+		// nil tests
+		if bo, ok := a.V.(*ssa.BinOp); ok && (isNilConst(bo.Y) || isNilConst(bo.X)) {
+			x := bo.X
+			if isNilConst(x) {
+				x = bo.Y
+			}
+			if isErrorType(x.Type()) {
+				if c, _ := callAndResult(x); c != nil {
+					switch calleeName(c) {
+					case "gabi.RepresentToPublicKey", "common.ModPow":
+						return "error from " + calleeName(c), true
+					}
+					return "error from " + calleeName(c), false
+				}
+				return "error value " + desc(x), false
+			}
+			return "nil test of " + desc(x), true
+		}
+		if g, ok := parseGuard(a, be); ok {
+			if g.Subject == sig+".E" && g.Kind == "big" {
+				return "interval test of e", true
+			}
+			return fmt.Sprintf("size/order test of %s (%s)", g.Subject, g.Kind), false
+		}
+		if c, _ := callAndResult(a.V); c != nil {
+			if bigMethod(c) == "ProbablyPrime" && desc(c.Call.Args[0]) == sig+".E" {
+				return "primality test of e", true
+			}
+			return "call " + calleeName(c), false
+		}
+		return "condition " + desc(a.V), false
+	}
+	for _, r := range returnsOf(fn) {
+		v, isB := boolConst(retValue(r, 0))
+		if !isB || v {
+			continue
+		}
+		b := r.Block()
+		for _, p := range b.Preds {
+			iff, ok := p.Instrs[len(p.Instrs)-1].(*ssa.If)
+			if !ok {
+				continue
+			}
+			want := True
+			if p.Succs[1] == b {
+				want = False
+			}
+			n++
+			what, ok2 := classify(Atom{Fn: fn, V: iff.Cond, Want: want})
+			R.decide(rule, fmt.Sprintf("%s:reject:%s", kCLVerify, what), "a rejecting branch of Verify is one of the specified reasons", ok2, "rejects on: "+what+" ["+desc(iff.Cond)+" is "+want.String()+"]", P.Pos(condPos(iff)))
+		}
+	}
+	R.decide(rule, kCLVerify+":rejections", "the rejecting branches were enumerated (>= 4)", n >= 4, fmt.Sprintf("%d", n), P.Pos(fn.Pos()))
+	// the accepting outcome is the equation itself: the only non-constant return is the comparison with Z (C05.b)
+	nEq := 0
+	for _, r := range returnsOf(fn) {
+		if _, isB := boolConst(retValue(r, 0)); !isB {
+			nEq++
+		}
+	}
+	R.decide(rule, kCLVerify+":single-outcome", "exactly one return yields a computed verdict (the equation)", nEq == 1, fmt.Sprintf("%d", nEq), P.Pos(fn.Pos()))
 }
